@@ -9,8 +9,8 @@
    predicate shown; run counts R, run numbers r, and the archive (hence its size n) are unrestricted
    (R = 0 is treated as 1 by the runner itself; r is not even required to be within 1..R).
 
-   Predicates (Saver.v):  no_nl name      = no line break in the name            (naming theorems; the regexps' [.] stops at a
-                                                                                   line break, names with one are not covered here)
+   Predicates (Saver.v):  no_nl name      = no line break in the name            (only for "JSON set name = run id"; key
+                                                                                   independence itself is proved for ALL names)
                           label_safe name = the name contains neither the text "(1/1)" nor the text "As-Is"   (label theorems;
                                             tight: see the two _boundary examples at the end)
                           plain_name      = both.   The completeness / faithfulness theorems need no condition on the name. *)
@@ -43,6 +43,38 @@ Theorem C12_naming_deterministic_single :
     /\ json_set_name k1 = Ok (run_id name R r) /\ json_set_name k2 = Ok (run_id name R r)
     /\ forall t l, files_written t l (keys summary) k1 = files_written t l (keys summary) k2.
 Proof. exact c12_naming_single. Qed.
+
+(* ... and for EVERY run id (no condition on the scenario name at all: line breaks, parentheses, "Solution (", ... included):
+   all four derivations take one value on all keys of the summary and the JSON set name never panics.  With a line break
+   in the name the set name is no longer the run id (the regexps' [.] stops at the break: it is the last line of the run
+   id, or an earlier line's prefix up to " Solution") -- see C12_line_break_truncates_set_name -- but it is still one value. *)
+Theorem C12_naming_deterministic_all_names_multi :
+  forall (St V : Type) (init : St) (decompress : string -> St -> St) (enc_of : St -> string) (vals_of : St -> V)
+         (run : string) (arch : list string) (st0 : St) (k1 k2 : string),
+    let summary := snd (save_set St V init decompress enc_of vals_of run arch st0) in
+    In k1 (keys summary) -> In k2 (keys summary) ->
+    file_stem k1 = file_stem k2 /\ set_id k1 = set_id k2
+    /\ json_set_name k1 = json_set_name k2 /\ is_ok (json_set_name k1) = true
+    /\ forall t l, files_written t l (keys summary) k1 = files_written t l (keys summary) k2.
+Proof. exact c12_naming_all_names_multi. Qed.
+
+Theorem C12_naming_deterministic_all_names_single :
+  forall (St V : Type) (init : St) (decompress : string -> St -> St) (enc_of : St -> string) (vals_of : St -> V)
+         (run : string) (e : string) (st0 : St) (k1 k2 : string),
+    let summary := snd (save_optimised St V init decompress enc_of vals_of run e st0) in
+    In k1 (keys summary) -> In k2 (keys summary) ->
+    file_stem k1 = file_stem k2 /\ set_id k1 = set_id k2
+    /\ json_set_name k1 = json_set_name k2 /\ is_ok (json_set_name k1) = true
+    /\ forall t l, files_written t l (keys summary) k1 = files_written t l (keys summary) k2.
+Proof. exact c12_naming_all_names_single. Qed.
+
+(* what a line break in the name does (replayed on the real code by the correspondence cases with such names) *)
+Example C12_line_break_truncates_set_name :
+  let name := String "a" (String "010" "b") in
+  map json_set_name [as_is_id (run_id name 3 2); member_id (run_id name 3 2) 1 2] = [Ok "b (2/3)"; Ok "b (2/3)"]
+  /\ map set_id [as_is_id (run_id name 3 2); member_id (run_id name 3 2) 1 2]
+     = [String "a" (String "010" "b (2/3) Summary"); String "a" (String "010" "b (2/3) Summary")].
+Proof. vm_compute. split; reflexivity. Qed.
 
 (* ---- labels: the label column, in closed form, and its uniqueness ---- *)
 
@@ -262,6 +294,8 @@ Proof. vm_compute. reflexivity. Qed.
 
 Print Assumptions C12_naming_deterministic_multi.
 Print Assumptions C12_naming_deterministic_single.
+Print Assumptions C12_naming_deterministic_all_names_multi.
+Print Assumptions C12_naming_deterministic_all_names_single.
 Print Assumptions C12_labels_multi.
 Print Assumptions C12_labels_unique_multi.
 Print Assumptions C12_labels_single.
